@@ -834,6 +834,12 @@ func main() {
 			defer wg.Done()
 			sem <- struct{}{}
 			defer func() { <-sem }()
+			if time.Since(t0).Seconds() > budget && i < nMain && j.forced == "" {
+				// the wall budget of the tier is spent: remaining random slices are not started (the evidence
+				// reports the runs that were executed, not the runs that were planned)
+				results[i] = &workerOut{sum: &summary{}}
+				return
+			}
 			results[i] = spawn(worker, prop, seed, j.from, j.to, j.gmp, j.extra...)
 			for _, r := range results[i].recs {
 				r.Run.forced, r.Run.params = j.forced, j.params
